@@ -175,3 +175,28 @@ pub fn selected_days(w: &World) -> Vec<i32> {
     v.dedup();
     v
 }
+
+/// Windows of consecutive microseconds explored completely by C10 / C11 (start instant in µs since
+/// the epoch).  Each window is one minute long and straddles a decision point of several units.
+pub fn micro_windows(w: &World) -> Vec<(&'static str, i64)> {
+    let cal = &w.cal;
+    let at = |y, m, d, hh: i64, mm: i64, ss: i64| cal.day_number(y, m, d) as i64 * US_DAY + hh * US_HOUR + mm * US_MIN + ss * US_SEC;
+    vec![
+        // crosses the epoch, a year / quarter / month start and midnight; minute midpoint 23:59:30
+        ("1969-12-31 23:59:15 .. 1970-01-01 00:00:15", at(1969, 12, 31, 23, 59, 15)),
+        // Thursday noon: midpoint of the day and of the ISO week; minute midpoint 11:59:30
+        ("2024-02-29 11:59:15 .. 12:00:15", at(2024, 2, 29, 11, 59, 15)),
+        // half past the last hour of the last day: rounding up leaves the supported range
+        ("9999-12-31 23:29:15 .. 23:30:15", at(9999, 12, 31, 23, 29, 15)),
+    ]
+}
+
+/// Thorough tier: one hour of consecutive microseconds across the epoch.
+pub fn micro_hour_window(w: &World) -> (&'static str, i64) {
+    ("1969-12-31 23:30:00 .. 1970-01-01 00:30:00", w.cal.day_number(1969, 12, 31) as i64 * US_DAY + 23 * US_HOUR + 30 * US_MIN)
+}
+
+/// Thorough tier: the days of one full 400-year Gregorian cycle (146,097 days, a whole number of weeks).
+pub fn cycle_days(w: &World) -> (i32, i32) {
+    (w.cal.day_number(1601, 1, 1), w.cal.day_number(2000, 12, 31))
+}
